@@ -16,7 +16,7 @@ From Typ Require Export Lib.Base.
 From stdpp Require Export gmap.
 Local Open Scope Z_scope.
 
-Definition gomap := option (gmap Z Z).
+Notation gomap := (option (gmap Z Z)) (only parsing).
 
 (* v, ok := m[k] *)
 Definition map_get (m : gomap) (k : Z) : Z * bool :=
@@ -254,7 +254,7 @@ Definition wf_ops (ops : list op) : bool := wf_ops_from 1 ops.
 
 (* ---- Reference (the statement of C11): a Bimap is a finite set of pairs in
    which no key and no value occurs twice, i.e. an injective finite map. ---- *)
-Definition spec := gmap Z Z.
+Notation spec := (gmap Z Z) (only parsing).
 
 Definition injective (m : spec) : Prop :=
   forall k1 k2 v, m !! k1 = Some v -> m !! k2 = Some v -> k1 = k2.
